@@ -7,7 +7,7 @@ name="$1"; src="$2"; shift 2
 export GOFLAGS=-mod=mod GOPROXY=off GOSUMDB=off GOTOOLCHAIN=local
 S="$src/SEED"
 [ -f "$S/patch.diff" ] || { echo "no patch.diff in $S"; exit 2; }
-demo_rel=$(head -1 "$S/demo_path.txt" | sed 's/^[^a-zA-Z\/]*//; s/[` ]*$//' | grep -o '[a-zA-Z0-9_./-]*\.go' | head -1)
+demo_rel=$(grep -o '[a-zA-Z0-9_./-]*\.go' "$S/demo_path.txt" | grep -v '^SEED/' | grep '/' | head -1)
 demo_file=$(ls "$S"/*_test.go "$S"/*_test.go.txt "$S"/*.go "$S"/*.go.txt 2>/dev/null | head -1)
 [ -n "$demo_file" ] || { echo "NO DEMO FILE in $S"; exit 2; }
 [ -n "$demo_rel" ] || { echo "NO DEMO PATH in $S/demo_path.txt"; exit 2; }
